@@ -10,7 +10,7 @@ def run (b : Br) : List Nat → List String
     s!"{toHex p.1.1}:{if p.1.2 then 1 else 0}:{d.1}" :: run d.2 t
 
 /-  bufio.ops <hex> <sched a,b,..|-> <size> <lims a,b,..|-> <op> ...   ops: P<n> Peek, D<n> Discard, R<n> Read(len n),
-    F<n> io.ReadFull(n), B<n> box.Read(len n), G<n> io.ReadFull over the box (n)  -> one token per op -/
+    F<n> io.ReadFull(n), B<n> box.Read(len n), G<n> io.ReadFull over the box (n), V<n> preview.RenderPreview over the box (Size n)  -> one token per op -/
 def lims (ls : List Nat) : String := ",".intercalate (ls.map toString)
 def hexOr (b : Bytes) : String := if b.isEmpty then "-" else toHex b
 def runOps : Br → List Nat → List String → Option (List String)
@@ -42,6 +42,10 @@ def runOps : Br → List Nat → List String → Option (List String)
       let g := boxReadFull (n + 1) ls b n
       let r ← runOps g.2.2.2 g.2.2.1 t
       pure (s!"{hexOr g.1}:{if g.2.1 then 1 else 0}:{lims g.2.2.1}" :: r)
+    | some 'V' =>
+      let g := boxReadChunked 2048 (n + 1) ls b n
+      let r ← runOps g.2.2 g.2.1 t
+      pure (s!"{hexOr g.1}:{lims g.2.1}" :: r)
     | _ => none
 def handle : List String → Option String
   | ["bufio.peek", hex, sched, size, ns] => do
